@@ -1,6 +1,8 @@
 """C02 (ThrottleFuture): cancel() answers a bool and never raises, outcome set once, under racing submits / hand-overs / cancels; scenario family and lockstep of C07 on Model/Throttle.v.
 Only the protocol verdicts of that family's monitor count here; every history is still replayed on the component machine."""
 import p_c07 as base
+LINE_PREEMPT = False     # the Throttle monitor reconstructs queue / counter state from the ADJACENCY of log entries of one thread:
+#                          runs with line-level preemption (drive.py) would be misread by it
 
 PROP = "C02"
 MACHINE = base.MACHINE
